@@ -306,7 +306,15 @@ pub fn typed_check(key: &[u8], raw: &[u8], si: &SchemeInfo, signer: usize) -> TR
                 TRes::Either(vec![InvalidRlpData])
             }
         }
-        _ => TRes::Fine,
+        _ => {
+            // a list value whose interior is not canonical RLP: storing or refusing are both admissible
+            // (what is stored must decode again, which C05 judges)
+            if rlp::header(raw, true).map_or(false, |h| h.list) && !rlp::deep_canonical(raw) {
+                TRes::Either(vec![InvalidRlpData])
+            } else {
+                TRes::Fine
+            }
+        }
     }
 }
 
